@@ -521,3 +521,19 @@ Theorem C04_own_bt_default : forall (enum : list N -> list N -> list C06_Model.m
       glue (substrate invert G H) (rc) y = Some T' /\ regen_exact T' (substrate invert G H) (h_to_implicit_host (if invert then G else H)) = true.
 Proof. exact own_bt_default. Qed.
 Print Assumptions C04_own_bt_default.
+
+(** from its_list to smarts_list, for ANY reactor (engine, options, substrate, rule -- both hydrogen modes, every strategy): if
+    the first read of its_list returns [gs], its [i]-th ITS is [T] and RDKit writes the two sides of [T] as non-empty strings
+    [r], [p] without '>', then smarts_list contains 'r>>p', turned round ('p>>r') exactly when the reactor runs backwards --
+    the filter of refused / empty serialisations and the single reversal of [smarts_list] do not lose or double-reverse it.
+    With C04_in_results_engine_default_partial this gives the default mode what C04_in_results_engine_partial states for the
+    implicit one. *)
+Theorem C04_smarts_contains : forall (engine : sarg -> option N -> bool -> C06_Model.graph -> C06_Model.graph -> outcome)
+    (rematch : nat -> hostg -> molg -> list C03_Model.mapping) (ser : nat -> its -> option bytes * option bytes)
+    (o : ropts) (host : hostg) (rule : triple) (gs : list its) (T : its) (i : nat) (r p : bytes),
+  fst (read_its engine rematch o host rule fresh) = Some gs ->
+  nth_error gs i = Some T -> ser i T = (Some r, Some p) -> r ++ arrow ++ p <> [] -> no_gt r -> no_gt p ->
+  exists ss : list bytes, fst (read_smarts engine rematch ser o host rule fresh) = Some ss /\
+    In (if o_invert o then p ++ arrow ++ r else r ++ arrow ++ p) ss.
+Proof. exact smarts_contains. Qed.
+Print Assumptions C04_smarts_contains.
